@@ -204,7 +204,7 @@ Eval(q, db) ==
 (***************************************************************************)
 (* MECHANISM.                                                              *)
 (***************************************************************************)
-AllFlags == {"where", "emptywhere", "prec", "intersect", "chain3", "tagsv2", "attrless_le", "distinct"}
+AllFlags == {"where", "emptywhere", "prec", "intersect", "chain3", "drop3", "tagsv2", "attrless_le", "distinct"}
 
 \* parser (model_v2.go): `Head AndOr Tail` is right recursive and has no operator
 \* priorities, so a flat text  x && y || z  becomes  x && (y || z).           [prec]
@@ -331,18 +331,23 @@ PlanEval(q, db, F) ==
   IF q.kind # "search"
   THEN \* select_tags_planner.go / select_values_planner.go: `key` (`val`) is selected next to
        \* GROUP BY trace_id, span_id without an aggregate function            [tagsv2]
-       IF "tagsv2" \in F THEN {MechError("tagsv2", db)}
-       ELSE LET r == MechSelector(q.sels[1], q, db, F)
-            IN IF r.err # NoErr THEN {MechError(r.err, db)}
-               ELSE LET sp == UNION {{<<t1, s1>> : s1 \in r.ms[t1]} : t1 \in Traces(db)}
-                    IN {[err |-> NoErr, M |-> {}, ms |-> [ti \in Traces(db) |-> {}], seqs |-> {},
-                         strs |-> IF q.kind = "tags" THEN UNION {RowKeys(db[x[1]][x[2]]) : x \in sp}
-                                  ELSE {RowVal(db[x[1]][x[2]], q.vkey) : x \in {y \in sp : q.vkey \in RowKeys(db[y[1]][y[2]])}}]}
+       \* (a statement can have this defect and the empty WHERE group; either may be reported)
+       LET r == MechSelector(q.sels[1], q, db, F)
+           errs == (IF "tagsv2" \in F THEN {"tagsv2"} ELSE {}) \cup (IF r.err # NoErr THEN {r.err} ELSE {})
+       IN IF errs # {} THEN {MechError(e, db) : e \in errs}
+          ELSE LET sp == UNION {{<<t1, s1>> : s1 \in r.ms[t1]} : t1 \in Traces(db)}
+               IN {[err |-> NoErr, M |-> {}, ms |-> [ti \in Traces(db) |-> {}], seqs |-> {},
+                    strs |-> IF q.kind = "tags" THEN UNION {RowKeys(db[x[1]][x[2]]) : x \in sp}
+                             ELSE {RowVal(db[x[1]][x[2]], q.vkey) : x \in {y \in sp : q.vkey \in RowKeys(db[y[1]][y[2]])}}]}
   ELSE IF n = 1 /\ q.sels[1].sh = "empty"
   THEN {MechFinal(r.P, r.ms, K1(db, r.ms), q, db) : r \in MechAttrless(q, db, F)}
   ELSE
   LET r == [i \in 1..n |-> MechSelector(q.sels[i], q, db, F)]
-      errs == {r[i].err : i \in 1..n} \ {NoErr}
+      \* planner.go planComplex: after `S1 op S2 && S3` the recursion continues on operands()[0], a simple
+      \* selector whose addOp does nothing: S3 is never planned                     [drop3]
+      dropped == n = 3 /\ q.ops[2] = "&&" /\ "drop3" \in F
+      planned == IF dropped THEN {1, 2} ELSE 1..n
+      errs == {r[i].err : i \in planned} \ {NoErr}
   IN IF errs # {} THEN {MechError(CHOOSE e \in errs : TRUE, db)}
      ELSE IF n = 1 THEN {MechFinal(r[1].P, r[1].ms, r[1].key, q, db)}
      ELSE IF n = 2 THEN LET c == MechCombine(q.ops[1], r[1], r[2], db, F) IN {MechFinal(c.P, c.ms, c.key, q, db)}
@@ -350,6 +355,8 @@ PlanEval(q, db, F) ==
           \* INTERSECT / UNION ALL is itself a combination, whose rows have no
           \* `timestamp_ns` column for the appended max(timestamp_ns)         [chain3]
           IF "chain3" \in F THEN {MechError("chain3", db)}
+          ELSE IF dropped
+               THEN LET c == MechCombine(q.ops[1], r[1], r[2], db, F) IN {MechFinal(c.P, c.ms, c.key, q, db)}
           ELSE IF q.ops[1] = "||" /\ q.ops[2] = "&&"
                THEN LET c23 == MechCombine("&&", r[2], r[3], db, F)
                         c == MechCombine("||", r[1], c23, db, F)
@@ -382,6 +389,7 @@ Applicable(q) ==
       hasDur(sel) == \E j \in SelSlots(sel) : sel.t[j].k = "dur"
   IN (IF q.kind # "search" THEN {"tagsv2"} ELSE {})
      \cup (IF Len(q.sels) = 3 THEN {"chain3"} ELSE {})
+     \cup (IF Len(q.sels) = 3 /\ q.ops[2] = "&&" THEN {"drop3"} ELSE {})
      \cup (IF \E i \in DOMAIN q.ops : q.ops[i] = "&&" THEN {"intersect"} ELSE {})
      \cup (IF \E sel \in S : sel.sh \in {"ao", "flat4", "flat4b"} THEN {"prec"} ELSE {})
      \cup (IF \E sel \in S : sel.sh # "empty" /\ WhereEmpty(sel) THEN {"emptywhere"} ELSE {})
